@@ -1,0 +1,13 @@
+// SPDX-FileCopyrightText: 2026 The Pion community <https://pion.ly>
+// SPDX-License-Identifier: MIT
+
+//go:build !verif
+
+package sctp
+
+// Verification hooks (see verif_hooks_on.go). With the "verif" build tag off
+// these are empty and the call sites compile to nothing.
+
+func vfHook(*Association, int, *chunkPayloadData) {}
+
+func vfYield(*Association, int) {}
